@@ -1107,6 +1107,31 @@ def _m_leading_zeros(eng, st, callee, args, ev):
     return C(bits - a[1].bit_length(), "u32")
 
 
+def _m_float_to_le_bytes(eng, st, callee, args, ev, be=False):
+    ft = callee.get("impl_self")
+    it = {"f32": "u32", "f64": "u64"}.get(ft)
+    if it is None:
+        return NotImplemented
+    c2 = dict(callee, impl_self=it)
+    return _m_to_le_bytes(eng, st, c2, [("to_bits", args[0])], ev, be=be)
+
+
+def _m_float_to_be_bytes(eng, st, callee, args, ev):
+    return _m_float_to_le_bytes(eng, st, callee, args, ev, be=True)
+
+
+def _m_float_from_le_bytes(eng, st, callee, args, ev, be=False):
+    ft = callee.get("impl_self")
+    it = {"f32": "u32", "f64": "u64"}.get(ft)
+    if it is None:
+        return NotImplemented
+    return ("from_bits", ("from_bytes", "be" if be else "le", it, args[0]))
+
+
+def _m_float_from_be_bytes(eng, st, callee, args, ev):
+    return _m_float_from_le_bytes(eng, st, callee, args, ev, be=True)
+
+
 def _m_to_bits(eng, st, callee, args, ev):
     return ("to_bits", args[0])
 
@@ -1270,6 +1295,11 @@ MODELS = {
     "core::f32::<impl f32>::from_bits": _m_from_bits,
     "core::f64::<impl f64>::from_bits": _m_from_bits,
 }
+for _t in ("f32", "f64"):
+    MODELS["core::%s::<impl %s>::to_le_bytes" % (_t, _t)] = _m_float_to_le_bytes
+    MODELS["core::%s::<impl %s>::to_be_bytes" % (_t, _t)] = _m_float_to_be_bytes
+    MODELS["core::%s::<impl %s>::from_le_bytes" % (_t, _t)] = _m_float_from_le_bytes
+    MODELS["core::%s::<impl %s>::from_be_bytes" % (_t, _t)] = _m_float_from_be_bytes
 for _t in ("u8", "i8", "u16", "i16", "u32", "i32", "u64", "i64", "u128", "i128", "usize", "isize"):
     MODELS["core::num::<impl %s>::to_le_bytes" % _t] = _m_to_le_bytes
     MODELS["core::num::<impl %s>::to_be_bytes" % _t] = _m_to_be_bytes
